@@ -157,6 +157,45 @@ func tallFamily(c *Ctx, prop string) {
 			}
 		}
 	}
+	// very tall family: 256..1025 leaves (rows 8..10; loop counters and shifts that are 8 bits wide
+	// live here): whole aligned halves and quarters, a leaf that climbed to row 8 and is then
+	// deleted, additions over the emptied root, and the undo of each
+	vtNs := []int{512}
+	if c.Thorough() {
+		vtNs = []int{256, 257, 512, 513, 1024, 1025}
+	}
+	vtStart := len(runs)
+	for _, N := range vtNs {
+		p2 := 1
+		for p2*2 <= N {
+			p2 *= 2
+		}
+		rng := func(a, b int) []int {
+			var x []int
+			for i := a; i < b; i++ {
+				x = append(x, i)
+			}
+			return x
+		}
+		half, quarter := p2/2, p2/4
+		for _, S := range [][]int{rng(0, half), rng(half, p2), rng(quarter, half), rng(0, p2), {0}, {half}, rng(1, half), rng(half, p2-1)} {
+			for _, k := range []int{0, 1, 3} {
+				base := []Op{{Kind: "block", Adds: N}, {Kind: "block", Dels: S, Adds: k}}
+				runs = append(runs, run{base})
+				// then delete the lone survivor of a half (it climbed to the half's root row)
+				if len(S) == half-1 {
+					surv := 0
+					if S[0] == half {
+						surv = p2 - 1
+					}
+					runs = append(runs, run{append(append([]Op(nil), base...), Op{Kind: "block", Dels: []int{surv}, Adds: 1})})
+				}
+			}
+		}
+	}
+	vtRuns := len(runs) - vtStart
+	c.Cov.Bound["very_tall.N"] = fmt.Sprint(vtNs)
+	c.Cov.Bound["very_tall.runs"] = vtRuns
 	c.Cov.Bound["medium.N"] = fmt.Sprint(medNs)
 	c.Cov.Bound["tall.N"] = "16,17,31,32,33,63,64,65 (thorough only)"
 	c.Cov.Bound["tall.runs"] = len(runs)
